@@ -5,7 +5,7 @@ import numpy as np
 from hypothesis import strategies as st
 
 from vf import gen, quant
-from vf.core import Verdict, lib, mk_basis, mk_shell, nfunc
+from vf.core import LibRaised, Verdict, lib, mk_basis, mk_shell, nfunc
 from vf.props.c04 import ill_list
 from vf.props.c09 import env_st
 from vf.props.c13 import KERNELS
@@ -159,12 +159,20 @@ def judge_orient(case):
 
 def judge_eri_orient(v, shells, label=None):
     sl = [mk_shell(s) for s in shells]
-    a = lib(ElectronRepulsionIntegral.construct_array_contraction, *sl)
-    q1 = np.sqrt(np.abs(np.einsum("manbmanb->manb", lib(ElectronRepulsionIntegral.construct_array_contraction, sl[0], sl[1], sl[0], sl[1]))))
-    q2 = np.sqrt(np.abs(np.einsum("manbmanb->manb", lib(ElectronRepulsionIntegral.construct_array_contraction, sl[2], sl[3], sl[2], sl[3]))))
+
+    def block(*idx):
+        out = lib(ElectronRepulsionIntegral.construct_array_contraction, *[sl[k] for k in idx])
+        want = sum(((sl[k].num_seg_cont, sl[k].num_cart) for k in idx), ())
+        if out.shape != want:
+            raise LibRaised(f"ERI block of shells {idx} has shape {out.shape}, expected (M, L) per shell = {want}")
+        return out
+
+    a = block(0, 1, 2, 3)
+    q1 = np.sqrt(np.abs(np.einsum("manbmanb->manb", block(0, 1, 0, 1))))
+    q2 = np.sqrt(np.abs(np.einsum("manbmanb->manb", block(2, 3, 2, 3))))
     nat = q1[:, :, :, :, None, None, None, None] * q2[None, None, None, None, :, :, :, :] + 1e-30
     for p in PERMS8[1:]:
-        b = lib(ElectronRepulsionIntegral.construct_array_contraction, *[sl[k] for k in p])
+        b = block(*p)
         # b[axes of shell p[0], p[1], ...] -> bring back to the order 0,1,2,3
         inv = [p.index(k) for k in range(4)]
         axes = sum(((2 * i, 2 * i + 1) for i in inv), ())
